@@ -376,6 +376,10 @@ package limit
 //@ func maxInt64
 //@   inline
 
+//@ func (*WindowedLimit).notifyListeners
+//@   requires locked: held(l.mu)
+//@   owns[C17]
+
 //@ func (*WindowedLimit).isWindowReady
 //@   ensures[C09] rule: result <==> (rtt < MaxInt64 && int32(inFlight) > l.windowSize)
 //@   assigns nothing
